@@ -17,6 +17,7 @@ import (
 	"os"
 	"sort"
 	"sync"
+	"sync/atomic"
 	"testing"
 	"time"
 
@@ -41,6 +42,8 @@ type c04Case struct {
 	LateLen   int       `json:"late_len"`
 	LateSeed  int64     `json:"late_seed"`
 	DelayMs   int       `json:"delay_ms"`
+	BannerLen int       `json:"banner_len"` // the covert speaks first: it sends this many bytes on accept
+	BannerSeed int64    `json:"banner_seed"`
 	Others    []vfOther `json:"others"`
 }
 
@@ -161,7 +164,7 @@ func c04Resolve(raw []int, flightLen, streamLen int) []int {
 	return out
 }
 
-func c04Echo() (net.Listener, chan []byte, chan int) {
+func c04Echo(banner []byte) (net.Listener, chan []byte, chan int) {
 	ln, err := net.Listen("tcp", "127.0.0.1:0")
 	if err != nil {
 		return nil, nil, nil
@@ -176,6 +179,9 @@ func c04Echo() (net.Listener, chan []byte, chan int) {
 		if err == nil {
 			n++
 			c.SetDeadline(time.Now().Add(20 * time.Second))
+			if len(banner) > 0 {
+				c.Write(banner)
+			}
 			buf := make([]byte, 32768)
 			for {
 				k, err := c.Read(buf)
@@ -213,7 +219,8 @@ func c04Run(s *vfStation, c c04Case) (res c04Res) {
 		res.Ms = time.Since(t0).Milliseconds()
 	}()
 	phantom := s.freshPhantom()
-	ln, echoGot, echoConns := c04Echo()
+	banner := vfLCG(c.BannerSeed, c.BannerLen)
+	ln, echoGot, echoConns := c04Echo(banner)
 	if ln == nil {
 		res.Err = "listen failed"
 		return
@@ -282,7 +289,7 @@ func c04Run(s *vfStation, c c04Case) (res c04Res) {
 
 	cli, srv := net.Pipe()
 	sc := &c04Conn{Conn: srv}
-	cli.SetDeadline(time.Now().Add(14 * time.Second))
+	cli.SetDeadline(time.Now().Add(c04Wait() + time.Duration(c.DelayMs*12)*time.Millisecond))
 	hdone := make(chan struct{})
 	go func() {
 		defer close(hdone)
@@ -292,7 +299,7 @@ func c04Run(s *vfStation, c c04Case) (res c04Res) {
 
 	data := vfLCG(c.DataSeed, c.DataLen)
 	late := vfLCG(c.LateSeed, c.LateLen)
-	want := len(data) + len(late)
+	want := len(banner) + len(data) + len(late)
 	var reply []byte
 	var flight []byte
 	delay := time.Duration(c.DelayMs) * time.Millisecond
@@ -311,7 +318,15 @@ func c04Run(s *vfStation, c c04Case) (res c04Res) {
 		if err != nil {
 			res.Err = "client handshake: " + err.Error()
 		} else {
-			oc.SetDeadline(time.Now().Add(14 * time.Second))
+			oc.SetDeadline(time.Now().Add(c04Wait()))
+			if len(banner) > 0 {
+				buf := make([]byte, len(banner))
+				k, err := io.ReadFull(oc, buf)
+				reply = append(reply, buf[:k]...)
+				if err != nil {
+					res.Err += " client read (banner): " + err.Error()
+				}
+			}
 			for _, part := range [][]byte{data, late} {
 				if len(part) == 0 {
 					continue
@@ -382,10 +397,17 @@ func c04Run(s *vfStation, c c04Case) (res c04Res) {
 	}
 	res.Flight = hex.EncodeToString(flight)
 	cli.Close()
+	sc.mu.Lock()
+	recognised := sc.done
+	sc.mu.Unlock()
+	if !recognised {
+		// nothing will be relayed: do not wait for the handler's 5-10 s deadline nor for the covert side
+		ln.Close()
+	}
 	select {
 	case <-hdone:
 		res.Returned = true
-	case <-time.After(16 * time.Second):
+	case <-time.After(map[bool]time.Duration{true: 16 * time.Second, false: 11 * time.Second}[recognised]):
 	}
 	select {
 	case e := <-echoGot:
@@ -395,6 +417,9 @@ func c04Run(s *vfStation, c c04Case) (res c04Res) {
 		res.Err += " echo server did not finish"
 	}
 	res.Reply = vfSpec(reply)
+	if len(reply) != want {
+		atomic.AddInt32(&c04Failed, 1)
+	}
 	res.Status = s.rm.VerifRegStatus(reg)
 	res.Updates = s.updatesOf(reg)
 	sc.mu.Lock()
@@ -409,9 +434,24 @@ func c04Run(s *vfStation, c c04Case) (res c04Res) {
 		}
 	}
 	stream := append(append([]byte{}, flight...), data...)
-	res.Reveals = s.reveals(stream)
+	res.Reveals = s.reveals(stream, phantom)
 	res.Marks = s.marks(phantom, stream)
 	return
+}
+
+// how long the client waits for the covert's reply; a recognised connection answers within
+// milliseconds, an unrecognised one is held by the handler until its 5-10 s deadline
+const c04ClientWait = 4 * time.Second
+
+// once many connections of a run have failed the tree is broken anyway: the remaining ones get a
+// short wait so that the run ends in minutes, not in (cases x deadline)
+var c04Failed int32
+
+func c04Wait() time.Duration {
+	if atomic.LoadInt32(&c04Failed) > 150 {
+		return 400 * time.Millisecond
+	}
+	return c04ClientWait
 }
 
 type c04Out struct {
